@@ -1,4 +1,4 @@
-"""C06 - nested parsing is transparent: one engine, sibling fences, node context, restored state, result fields."""
+"""C06 - nested parsing is transparent: one engine, sibling fences, node context, restored state, result fields, text conservation."""
 
 from __future__ import annotations
 
@@ -43,7 +43,10 @@ META = {
         "restores. R4: every piece of renderer/document/env state changed around a nested render is restored to the value "
         "saved before it (nested_render_text._restore; the try/finally of the include mock). R5: the fields of "
         "DirectiveParsingResult reach the directive constructor, the include mock and parse_directive_block under the "
-        "matching keyword/position."
+        "matching keyword/position. R6: on every data-flow path from the inserted text (directive content, block handed to "
+        "nested_parse / inliner.parse, text read from the included file, value rendered by the substitution template) to the "
+        "nested parse no character-changing operation (strip family, expandtabs, replace, dedent, escape, re.sub ...) is applied - "
+        "uses whose result is only tested are ignored - and the Jinja environment of substitutions has no autoescape/finalize."
     ),
     "not_decided": (
         "node-for-node equality of render(W(X)) and render(X) (needs the trees). In particular NOT decided and known to "
@@ -194,6 +197,22 @@ class _Inliner(ast.NodeTransformer):
             return n
         fresh = ast.parse(unparse(v), mode="eval").body
         return _Inliner(self.fi, self.use_stmt, self.tok, self.depth + 1).visit(fresh)
+
+    def visit_IfExp(self, n: ast.IfExp):
+        self.generic_visit(n)
+        # ``X.strip() if X else ""``  ==  ``(X or "").strip()``  (methods that map "" to "")
+        b = n.body
+        if (
+            isinstance(n.orelse, ast.Constant)
+            and n.orelse.value == ""
+            and isinstance(b, ast.Call)
+            and isinstance(b.func, ast.Attribute)
+            and b.func.attr in ("strip", "lstrip", "rstrip", "lower", "upper", "casefold")
+            and unparse(b.func.value) == unparse(n.test)
+        ):
+            b.func.value = ast.BoolOp(ast.Or(), [n.test, ast.Constant("")])
+            return b
+        return n
 
     def visit_Subscript(self, n: ast.Subscript):
         self.generic_visit(n)
@@ -505,7 +524,7 @@ def r1_one_engine(corpus: Corpus, rep: Report, tier: str):
                         continue
                     n_writers += 1
                     site = fi.module.site(n)
-                    k = f"{fi.fq}|binds .{leaf.attr}"
+                    k = f"{fi.fq}|binds .{leaf.attr} <- {short(v, 50) if v is not None else 'del'}"
                     okw = False
                     why = ""
                     if leaf.attr == "md" and fi.fq == init.fq and unparse(leaf.value) == "self" and isinstance(v, ast.Name) and v.id in _pos_params(init):
@@ -814,7 +833,7 @@ def r2_sibling_fences(corpus: Corpus, rep: Report, tier: str):
     for fi, call in g.callers().get(run.fq, []):
         if fi.fq != rd.fq:
             rep.listed("C06.R2", f"{fi.fq}|run_directive({short(call.args[0], 30) if call.args else ''}, ...)", fi.module.site(call), "synthetic directive call (HTML conversion), body is not fence content")
-    rep.expect_min("C06.R2", 9, "name/arguments/guard comparisons, token hand-over x2, content untouched x2, three forwarded parameters")
+    rep.expect_min("C06.R2", 7, "name/arguments/guard comparisons, token hand-over x2, content untouched x2, three forwarded parameters")
 
 
 # ---------------------------------------------------------------------------
@@ -1116,6 +1135,13 @@ def r4_state_restored(corpus: Corpus, rep: Report, tier: str):
                     defs = _local_defs(inc, n.value.id)
                     if len(defs) == 1 and _state_key(defs[0][1]) == key and icfg.dominates(defs[0][0], tr):
                         restored = n
+            if restored is None and key.endswith("]") and "[" in key:
+                cont = key[: key.rindex("[")]
+                for n in fin_nodes:
+                    if isinstance(n, ast.Assign) and any(_state_key(x) == cont for x in n.targets) and isinstance(n.value, ast.Name):
+                        defs = _local_defs(inc, n.value.id)
+                        if len(defs) == 1 and _state_key(defs[0][1]) == cont and unparse(defs[0][1]) == cont and icfg.dominates(defs[0][0], tr):
+                            restored = n  # the mapping itself is swapped for the include and put back
             removed = None
             unknown = None
             for n in fin_nodes:
@@ -1348,7 +1374,253 @@ def r5_result_fields(corpus: Corpus, rep: Report, tier: str):
     rep.expect_min("C06.R5", 20, "two text parameters, eight constructor keywords, five include parameters, two attribute bindings, three result fields, four returned values")
 
 
-RULES = [r1_one_engine, r2_sibling_fences, r3_node_context, r4_state_restored, r5_result_fields]
+# ---------------------------------------------------------------------------
+# R6 the inserted text reaches the nested parse unmodified
+
+# str methods / functions that change the characters of (some) text they are applied to
+NORMALISING_METHODS = {
+    "strip", "lstrip", "rstrip", "expandtabs", "replace", "lower", "upper", "casefold", "title", "capitalize", "swapcase",
+    "translate", "format", "removeprefix", "removesuffix", "center", "ljust", "rjust", "zfill", "sub", "subn",
+}
+NORMALISING_FUNCS = {"dedent", "indent", "escape", "unescape", "normalize", "quote", "unquote", "fill", "wrap", "shorten", "sub", "subn", "Markup"}
+# uses whose result is a number/bool: the transformed string itself goes nowhere
+PREDICATE_METHODS = {"startswith", "endswith", "isspace", "isalpha", "isdigit", "isalnum", "find", "rfind", "index", "rindex", "count", "match", "search", "fullmatch"}
+PREDICATE_FUNCS = {"len", "bool", "any", "all", "isinstance", "int"}
+
+
+def _names_in(e: ast.AST) -> set[str]:
+    return {n.id for n in ast.walk(e) if isinstance(n, ast.Name)}
+
+
+def _root_name(e: ast.AST) -> str | None:
+    while isinstance(e, (ast.Attribute, ast.Subscript, ast.Call)):
+        e = e.func if isinstance(e, ast.Call) else e.value
+    return e.id if isinstance(e, ast.Name) else None
+
+
+def _bindings(fi: FunctionInfo) -> list[tuple[set[str], ast.AST]]:
+    """(bound names, value expression) for every binding construct of the function, including
+    comprehension variables and container mutators (``xs.append(v)`` binds ``xs`` from ``v``)."""
+    out: list[tuple[set[str], ast.AST]] = []
+    for n in fi.local_nodes():
+        if isinstance(n, ast.Assign):
+            out.append(({x.id for t in n.targets for x in ast.walk(t) if isinstance(x, ast.Name)}, n.value))
+        elif isinstance(n, (ast.AnnAssign, ast.AugAssign)) and n.value is not None:
+            out.append(({x.id for x in ast.walk(n.target) if isinstance(x, ast.Name)}, n.value))
+        elif isinstance(n, (ast.For, ast.comprehension)):
+            out.append(({x.id for x in ast.walk(n.target) if isinstance(x, ast.Name)}, n.iter))
+        elif isinstance(n, ast.withitem) and n.optional_vars is not None:
+            out.append(({x.id for x in ast.walk(n.optional_vars) if isinstance(x, ast.Name)}, n.context_expr))
+        elif isinstance(n, ast.NamedExpr):
+            out.append(({n.target.id}, n.value))
+        elif isinstance(n, ast.Call) and isinstance(n.func, ast.Attribute) and n.func.attr in ("append", "insert", "extend", "appendleft", "add", "update") and n.args:
+            r = _root_name(n.func.value)
+            if r:
+                out.append(({r}, n.args[-1]))
+    return out
+
+
+def _forward(fi: FunctionInfo, seeds: set[str]) -> set[str]:
+    carriers = set(seeds)
+    bs = _bindings(fi)
+    changed = True
+    while changed:
+        changed = False
+        for names, val in bs:
+            if not names <= carriers and _names_in(val) & carriers:
+                carriers |= names
+                changed = True
+    return carriers
+
+
+def _backward(fi: FunctionInfo, sinks: list[ast.AST]) -> set[str]:
+    need: set[str] = set()
+    for s in sinks:
+        need |= _names_in(s)
+    bs = _bindings(fi)
+    changed = True
+    while changed:
+        changed = False
+        for names, val in bs:
+            if names & need:
+                new = _names_in(val) - need
+                if new:
+                    need |= new
+                    changed = True
+    return need
+
+
+def _destination(call: ast.Call, sinks: list[ast.AST]) -> tuple[str, set[str]]:
+    """Where the value of ``call`` goes: ('sink', .) | ('names', {...}) | ('return', .) | ('test', .) | ('dropped', .)."""
+    node: ast.AST = call
+    for a in ancestors(call):
+        if any(a is s for s in sinks) or any(node is s for s in sinks):
+            return "sink", set()
+        if isinstance(a, ast.Attribute) and a.value is node and isinstance(parent(a), ast.Call) and parent(a).func is a and a.attr in PREDICATE_METHODS:
+            return "test", set()
+        if isinstance(a, ast.Call) and node in a.args and (dotted(a.func) or "").split(".")[-1] in PREDICATE_FUNCS | PREDICATE_METHODS:
+            return "test", set()
+        if isinstance(a, ast.Call) and node in a.args and isinstance(a.func, ast.Attribute) and a.func.attr in ("append", "insert", "extend", "appendleft", "add", "update"):
+            r = _root_name(a.func.value)
+            return ("names", {r}) if r else ("dropped", set())
+        if isinstance(a, ast.Compare):
+            return "test", set()
+        if isinstance(a, (ast.If, ast.While, ast.IfExp, ast.Assert)) and a.test is node:
+            return "test", set()
+        if isinstance(a, ast.comprehension) and node in a.ifs:
+            return "test", set()
+        if isinstance(a, (ast.UnaryOp,)) and isinstance(a.op, ast.Not):
+            return "test", set()
+        if isinstance(a, ast.Assign):
+            return "names", {x.id for t in a.targets for x in ast.walk(t) if isinstance(x, ast.Name)}
+        if isinstance(a, (ast.AnnAssign, ast.AugAssign)):
+            return "names", {x.id for x in ast.walk(a.target) if isinstance(x, ast.Name)}
+        if isinstance(a, ast.NamedExpr):
+            return "names", {a.target.id}
+        if isinstance(a, ast.Return):
+            return "return", set()
+        if isinstance(a, ast.stmt):
+            return "dropped", set()
+        node = a
+    return "dropped", set()
+
+
+def _text_conserved(rep: Report, fi: FunctionInfo, seeds: set[str], sinks: list[ast.AST], label: str, sink_label: str, source_pred=None) -> None:
+    """No character-changing operation lies on a data-flow path from the inserted text to the nested parse."""
+    k = f"{fi.fq}|{label} reaches {sink_label} unmodified"
+    if not sinks:
+        raise Unsupported(f"{fi.qualname}: {sink_label} not found")
+    if not seeds:
+        raise Unsupported(f"{fi.qualname}: source of {label} not found")
+    carriers = _forward(fi, seeds)
+    need = _backward(fi, sinks)
+    if not any(_names_in(s) & carriers for s in sinks):
+        rep.violation("C06.R6", f"{fi.fq}|{sink_label} derives from {label}", fi.module.site(sinks[0]), f"{sink_label} (`{short(sinks[0], 60)}`) does not derive from {label}")
+        return
+    bad = []
+    nodes_ = fi.local_nodes()
+
+    def carries(e: ast.AST) -> bool:
+        return bool(_names_in(e) & carriers) or (source_pred is not None and any(source_pred(x) for x in ast.walk(e)))
+
+    for n in nodes_:
+        if not isinstance(n, ast.Call):
+            continue
+        if isinstance(n.func, ast.Attribute) and n.func.attr in NORMALISING_METHODS and carries(n.func.value) and not (_root_name(n.func.value) in fi.module.imports):
+            pass
+        elif (dotted(n.func) or "").split(".")[-1] in NORMALISING_FUNCS and any(carries(a) for a in list(n.args) + [kw.value for kw in n.keywords]):
+            pass
+        else:
+            continue
+        kind, names = _destination(n, sinks)
+        if kind == "sink" or (kind == "names" and names & need) or (kind == "return" and any(isinstance(parent(s), ast.Return) or any(isinstance(x, ast.Return) for x in ancestors(s)) for s in sinks)):
+            bad.append(n)
+    if not bad:
+        rep.ok("C06.R6", k, fi.module.site(sinks[0]), f"via {sorted(need & carriers)[:6]}")
+    for n in bad:
+        op = n.func.attr if isinstance(n.func, ast.Attribute) else (dotted(n.func) or "?")
+        rep.violation(
+            "C06.R6",
+            f"{fi.fq}|{op}() applied to {label} on its way to {sink_label}",
+            fi.module.site(n),
+            f"`{short(_stmt_of(n), 90)}`: {op}() changes characters of {label} before it is parsed as Markdown, so some text (leading indentation, tabs, blank lines, < & quotes ...) "
+            "renders differently from the same text written in place / at top level",
+        )
+
+
+@rule("C06.R6")
+def r6_text_conserved(corpus: Corpus, rep: Report, tier: str):
+    rep.rule("C06.R6", "directive bodies, included files and substitution values reach the nested parse character for character (no strip/expandtabs/escape/dedent... on the way; template engine without output transformation)")
+    g = get_callgraph(corpus)
+    nrt = corpus.func(f"{RENDERER}.nested_render_text")
+
+    def nrt_text_args(fi: FunctionInfo) -> list[ast.AST]:
+        out = []
+        for c in _fn_calls(fi):
+            if any(t.fq == nrt.fq for t in g.flat_targets(g.resolve_call(c, fi))) or (isinstance(c.func, ast.Attribute) and c.func.attr == "nested_render_text"):
+                m = _callee_param_index(nrt, c)
+                if m.get(0) is not None:
+                    out.append(m[0])
+        return out
+
+    def ctor_field_args(fi: FunctionInfo, cls_fq: str, idx: int, fname: str) -> list[ast.AST]:
+        out = []
+        for c in _fn_calls(fi):
+            t = g.expr_type(c, fi)
+            if t is not None and t[0] == "is" and t[1].fq == cls_fq and isinstance(c.func, (ast.Name, ast.Attribute)) and (dotted(c.func) or "").split(".")[-1] == t[1].name:
+                a = c.args[idx] if len(c.args) > idx else kwarg(c, fname)
+                if a is not None:
+                    out.append(a)
+        return out
+
+    # 1. option block split
+    pdo = corpus.func("parsers.directives:_parse_directive_options")
+    oc = corpus.cls("parsers.directives:_DirectiveOptions")
+    of = _dataclass_fields(oc)
+    _text_conserved(rep, pdo, {_pos_params(pdo)[0]}, ctor_field_args(pdo, oc.fq, 0, of[0]), "the directive's content", "the body left after the option block")
+    # 2. body lines
+    pdt = corpus.func("parsers.directives:parse_directive_text")
+    res = corpus.cls("parsers.directives:DirectiveParsingResult")
+    rf = _dataclass_fields(res)
+    pp = _pos_params(pdt)
+    _text_conserved(rep, pdt, {pp[1], pp[2]}, ctor_field_args(pdt, res.fq, 2, rf[2]), "the directive's first line/content", "the body lines of the parsing result")
+    # 3./4. the mocks
+    np_ = corpus.func("mocking:MockState.nested_parse")
+    _text_conserved(rep, np_, {_pos_params(np_)[0]}, nrt_text_args(np_), "the block handed to nested_parse", "the nested parse")
+    ip = corpus.func("mocking:MockInliner.parse")
+    _text_conserved(rep, ip, {_pos_params(ip)[0]}, nrt_text_args(ip), "the text handed to inliner.parse", "the nested parse")
+    pdb = corpus.func("mocking:MockState.parse_directive_block")
+    sinks = []
+    for c in _fn_calls(pdb):
+        if any(t.fq == pdt.fq for t in g.flat_targets(g.resolve_call(c, pdb))):
+            m = _callee_param_index(pdt, c)
+            if m.get(2) is not None:
+                sinks.append(m[2])
+    _text_conserved(rep, pdb, {_pos_params(pdb)[0]}, sinks, "the content handed to parse_directive_block", "parse_directive_text")
+    # 5. include
+    inc = corpus.func("mocking:MockIncludeDirective.run")
+    seeds = set()
+    is_read = lambda x: isinstance(x, ast.Call) and isinstance(x.func, ast.Attribute) and x.func.attr in ("read_text", "read", "read_bytes")
+    for names, val in _bindings(inc):
+        if any(is_read(x) for x in ast.walk(val)):
+            seeds |= names
+    _text_conserved(rep, inc, seeds, nrt_text_args(inc), "the included file's text", "the nested parse", source_pred=is_read)
+    # 6. substitution
+    sub = corpus.func(f"{RENDERER}.render_substitution")
+    seeds = set()
+    is_tmpl = lambda x: isinstance(x, ast.Call) and isinstance(x.func, ast.Attribute) and x.func.attr == "render"
+    for names, val in _bindings(sub):
+        if any(is_tmpl(x) for x in ast.walk(val)):
+            seeds |= names
+    _text_conserved(rep, sub, seeds, nrt_text_args(sub), "the substitution's value", "the nested parse", source_pred=is_tmpl)
+    envs = [c for c in _fn_calls(sub) if sub.module.resolve(dotted(c.func) or "") in ("jinja2.Environment", "jinja2.environment.Environment", "jinja2.sandbox.SandboxedEnvironment", "jinja2.sandbox.ImmutableSandboxedEnvironment")]
+    if not envs:
+        raise Unsupported("render_substitution: the jinja2 Environment construction was not found")
+    for c in envs:
+        k = f"{sub.fq}|template engine returns the value untransformed"
+        bad = []
+        for kw in c.keywords:
+            if kw.arg is None:
+                raise Unsupported("render_substitution: Environment(**kwargs)")
+            if kw.arg == "autoescape" and not (isinstance(kw.value, ast.Constant) and not kw.value.value):
+                bad.append(f"autoescape={unparse(kw.value)} HTML-escapes < > & ' \" in every substituted value")
+            if kw.arg == "finalize":
+                bad.append(f"finalize={short(kw.value, 40)} post-processes every substituted value")
+        if len(c.args) > 0:
+            raise Unsupported("render_substitution: positional Environment arguments")
+        if bad:
+            rep.violation("C06.R6", k, sub.module.site(c), "; ".join(bad) + ": the text that is nested-parsed is not the text of the substitution (code spans, code blocks and HTML blocks show entities / lose their markup)")
+        else:
+            rep.ok("C06.R6", k, sub.module.site(c), "no autoescape / finalize")
+    # 7. div content, 8. nested_render_text itself
+    cf = corpus.func(f"{RENDERER}.render_colon_fence")
+    _text_conserved(rep, cf, {_pos_params(cf)[0]}, nrt_text_args(cf), "the fence content", "the nested parse")
+    sinks = [c.args[0] for c in _fn_calls(nrt) if isinstance(c.func, ast.Attribute) and c.func.attr in ("parse", "parseInline") and unparse(_deref(c.func.value, nrt) or c.func.value).endswith("md") and c.args]
+    _text_conserved(rep, nrt, {_pos_params(nrt)[0]}, sinks, "the text argument", "markdown-it")
+    rep.expect_min("C06.R6", 10, "nine text paths and the template environment")
+
+
+RULES = [r1_one_engine, r2_sibling_fences, r3_node_context, r4_state_restored, r5_result_fields, r6_text_conserved]
 
 
 # ---------------------------------------------------------------------------
@@ -1442,6 +1714,29 @@ def mutants(corpus: Corpus):
             "render_fence|token handed",
         )
 
+    # revert of 3a96f3b: the colon fence prefixes a newline again, the option scanner reads ':::' lines as options again
+    dm = corpus.mod("parsers.directives")
+    pdo = dm.func("_parse_directive_options")
+    c = find_node(cf, lambda n: is_call(n, "render_directive"))
+    br = find_node(pdo, lambda n: isinstance(n, ast.If) and "':::'" in unparse(n.test) and isinstance(n.test, ast.BoolOp) and isinstance(n.test.op, ast.And))
+    if c is not None:
+        st = _stmt_of(c)
+        ind = _indent(base, st)
+        hack = (
+            'if token.content.startswith(":::"):\n'
+            + ind + '    assert token.token is not None\n'
+            + ind + "    linear_token = token.token.copy()\n"
+            + ind + '    linear_token.content = "\\n" + linear_token.content\n'
+            + ind + "    token.token = linear_token\n"
+            + ind
+        )
+        more = {}
+        if br is not None:
+            more[dm.rel] = splice(dm.src, br.test, _seg(dm, br.test.values[0]))
+        out.append(Mutant("c06-revert-3a96f3b-colon-fence-newline-hack", "C06.R2", base.rel, splice(base.src, st, hack + _seg(base, st)), expect="render_colon_fence|token handed", more=more))
+    else:
+        out.append(("c06-revert-3a96f3b-colon-fence-newline-hack", "render_colon_fence no longer calls render_directive"))
+
     # ---- R3
     c = find_node(np_, lambda n: is_call(n, "current_node_context"))
     add("c06-nested-parse-appends-node", "C06.R3", mk, c, f"{_seg(mk, c.func)}({_seg(mk, c.args[0])}, append=True)" if c else "", "MockState.nested_parse")
@@ -1480,8 +1775,25 @@ def mutants(corpus: Corpus):
         add("c06-include-reporter-source-not-restored", "C06.R4", mk, a, "pass", "reporter.source")
         a = next((n for n in fin if isinstance(n, ast.Assign) and unparse(n.targets[0]).endswith("document['source']")), None)
         add("c06-include-document-source-not-restored", "C06.R4", mk, a, "pass", "document['source']")
-        a = next((_stmt_of(n) for n in fin if is_call(n, "pop") and n.args and isinstance(n.args[0], ast.Constant) and n.args[0].value == "relative-docs"), None)
+        a = next((n for n in fin if isinstance(n, ast.Assign) and "relative-docs" in unparse(n.targets[0])), None)
         add("c06-include-relative-docs-leaks", "C06.R4", mk, a, "pass", "relative-docs'] changed for the included file -> not restored")
+        # revert of aec6256: the enclosing include's settings are popped instead of restored
+        src = mk.src
+        okr = True
+        for key in ("relative-images", "relative-docs"):
+            a = next((n for n in fin if isinstance(n, ast.Assign) and key in unparse(n.targets[0]) and isinstance(n.targets[0], ast.Subscript)), None)
+            if a is None:
+                okr = False
+        if okr:
+            # splice from the bottom up so that earlier offsets stay valid
+            for key in ("relative-docs", "relative-images"):
+                t = ast.parse(src)
+                cand = [n for n in ast.walk(t) if isinstance(n, ast.Assign) and isinstance(n.targets[0], ast.Subscript) and key in unparse(n.targets[0]) and isinstance(n.value, ast.Name)]
+                a = sorted(cand, key=lambda n: n.lineno)[-1]
+                src = splice(src, a, f"{unparse(a.targets[0].value)}.pop({key!r}, None)")
+            out.append(Mutant("c06-revert-aec6256-include-pops-relative-settings", "C06.R4", mk.rel, src, expect="removed, not restored", canary=False))
+        else:
+            out.append(("c06-revert-aec6256-include-pops-relative-settings", "the restoring assignments are gone"))
     else:
         out.append(("c06-include-finally", "include mock has no try/finally around the nested render"))
 
@@ -1489,7 +1801,7 @@ def mutants(corpus: Corpus):
     run = base.func(R + "run_directive")
     ctor = find_node(run, lambda n: isinstance(n, ast.Call) and {"content_offset", "block_text"} <= {k.arg for k in n.keywords})
     kwv = lambda call, name: next((k.value for k in call.keywords if k.arg == name), None) if call is not None else None
-    add("c06-content-offset-zero", "C06.R5", base, kwv(ctor, "content_offset"), "0", "content_offset", canary=True)
+    add("c06-content-offset-zero", "C06.R5", base, kwv(ctor, "content_offset"), "0", "content_offset")
     v = kwv(ctor, "lineno")
     add("c06-lineno-off-by-one", "C06.R5", base, v, f"{_seg(base, v)} + 1" if v is not None else "", "lineno")
     v = kwv(ctor, "content")
@@ -1504,4 +1816,26 @@ def mutants(corpus: Corpus):
     pc = find_node(run, lambda n: isinstance(n, ast.Call) and unparse(n.func) == "parse_directive_text")
     if pc is not None and len(pc.args) >= 3:
         add("c06-first-line-joined-into-content", "C06.R5", base, pc.args[2], f"{_seg(base, pc.args[1])} + '\\n' + {_seg(base, pc.args[2])}", "body text")
+
+    # ---- R6 (class: a character-changing operation on the inserted text before the nested parse)
+    a = find_node(pdo, lambda n: isinstance(n, ast.Assign) and is_call(n.value, "splitlines") and isinstance(n.value.func.value, ast.Name) and n.value.func.value.id == _pos_params(pdo)[0])
+    add("c06-option-scan-skips-leading-blank-lines", "C06.R6", dm, a.value.func.value if a else None, f"{_pos_params(pdo)[0]}.lstrip()", "lstrip() applied", canary=True)
+    pdt = dm.func("parse_directive_text")
+    a = find_node(pdt, lambda n: isinstance(n, ast.Assign) and is_call(n.value, "splitlines") and isinstance(n.value.func.value, ast.Name) and n.value.func.value.id == _pos_params(pdt)[2])
+    add("c06-body-dedented", "C06.R6", dm, a.value.func.value if a else None, f"dedent({_pos_params(pdt)[2]})", "dedent() applied")
+    c = find_node(np_, lambda n: is_call(n, "nested_render_text"))
+    add("c06-nested-parse-strips-block", "C06.R6", mk, c.args[0] if c and c.args else None, f"{_seg(mk, c.args[0])}.strip()" if c and c.args else "", "strip() applied")
+    a = find_node(inc, lambda n: isinstance(n, ast.Subscript) and isinstance(n.slice, ast.Slice) and is_call(n.value, "splitlines"))
+    add("c06-include-rstrips-lines", "C06.R6", mk, a, f"[ln.rstrip() for ln in {_seg(mk, a)}]" if a is not None else "", "rstrip() applied")
+    c = find_node(inc, lambda n: is_call(n, "read_text"))
+    add("c06-include-expands-tabs", "C06.R6", mk, c, f"{_seg(mk, c)}.expandtabs(8)" if c is not None else "", "expandtabs() applied")
+    c = find_node(sub, lambda n: is_call(n, "nested_render_text") and not n.keywords)
+    add("c06-substitution-value-stripped", "C06.R6", base, c.args[0] if c and c.args else None, f"{_seg(base, c.args[0])}.strip()" if c and c.args else "", "strip() applied")
+    e = find_node(sub, lambda n: isinstance(n, ast.Call) and base.resolve(dotted(n.func) or "") == "jinja2.Environment")
+    if e is not None:
+        inner = _seg(base, e)
+        add("c06-substitution-autoescape", "C06.R6", base, e, inner[:-1].rstrip().rstrip(",") + ", autoescape=True)", "template engine")
+        add("c06-substitution-finalize-hook", "C06.R6", base, e, inner[:-1].rstrip().rstrip(",") + ', finalize=lambda v: "" if v is None else v)', "template engine")
+    else:
+        out.append(("c06-substitution-autoescape", "jinja2.Environment(...) not found"))
     return out
